@@ -191,21 +191,65 @@ fn spec_of_db(db: &IndexedDatabase) -> DbSpec {
     }
 }
 
-fn features(feats: &[(usize, f32)]) -> Vec<Feature> {
-    feats
-        .iter()
-        .enumerate()
-        .map(|(n, &(i, s))| {
+/// PSMs as a search with `report_psms = 3` would hand them over. Everything except `peptide_idx` and
+/// `discriminant_score` is filled with REALISTIC-LOOKING JUNK derived from the position and content of the PSM
+/// (so a replayed request gives the same features): consecutive PSMs form spectra of 1-3 candidates, `rank` is
+/// the position by score inside the spectrum (so the same peptide is rank 1 in one spectrum and rank 2/3 in
+/// another, and some peptides are only ever seen at rank >= 2), `label` follows the database, and psm_id,
+/// spec_id, file_id, charge, masses, retention times, hyperscore, spectrum_q, posterior_error and the STALE
+/// peptide_q / protein_q (1.0, 0.5 and out-of-range values: a PSM that is not written back breaks `range`,
+/// `same_entity` or `antitone`) vary.
+/// None of these may influence picked_peptide / picked_protein.
+fn features(feats: &[(usize, f32)], spec: &DbSpec) -> Vec<Feature> {
+    fn junk(n: usize, i: usize, s: f32, salt: u64) -> u64 {
+        let mut z = (n as u64).wrapping_mul(0x9E37_79B9_7F4A_7C15) ^ ((i as u64) << 32) ^ (s.to_bits() as u64);
+        z = z.wrapping_add(salt.wrapping_mul(0xD1B5_4A32_D192_ED03));
+        z = (z ^ (z >> 30)).wrapping_mul(0xBF58_476D_1CE4_E5B9);
+        z = (z ^ (z >> 27)).wrapping_mul(0x94D0_49BB_1331_11EB);
+        z ^ (z >> 31)
+    }
+    const STALE: [f32; 8] = [2.0, 1.0, 0.0, 0.5, -1.0, f32::NAN, 1.0, f32::INFINITY];
+    let mut out: Vec<Feature> = Vec::with_capacity(feats.len());
+    let mut start = 0usize;
+    let mut scan = 0usize;
+    while start < feats.len() {
+        let size = (1 + junk(start, feats[start].0, feats[start].1, 1) % 3) as usize;
+        let end = (start + size).min(feats.len());
+        // rank by score within the spectrum (ties: earlier candidate first)
+        let mut order: Vec<usize> = (start..end).collect();
+        order.sort_by(|&a, &b| feats[b].1.total_cmp(&feats[a].1).then(a.cmp(&b)));
+        for n in start..end {
+            let (i, s) = feats[n];
+            let j = |salt: u64| junk(n, i, s, salt);
             let mut f = super::util::blank_feature();
             f.peptide_idx = PeptideIx(i as u32);
             f.discriminant_score = s;
-            f.psm_id = n;
-            // fields the functions must not read
-            f.hyperscore = -(n as f64);
-            f.spectrum_q = 0.5;
-            f
-        })
-        .collect()
+            f.rank = 1 + order.iter().position(|&k| k == n).unwrap() as u32;
+            f.label = if spec.peps.get(i).map(|p| p.decoy).unwrap_or(false) { -1 } else { 1 };
+            f.psm_id = (j(2) % 1_000_000) as usize;
+            f.spec_id = format!("controllerType=0 controllerNumber=1 scan={}", 1000 + scan);
+            f.file_id = (j(3) % 4) as usize;
+            f.charge = 1 + (j(4) % 5) as u8;
+            f.peptide_len = spec.peps.get(i).map(|p| p.seq.len()).unwrap_or(0);
+            f.expmass = 500.0 + (j(5) % 300_000) as f32 / 100.0;
+            f.calcmass = f.expmass + ((j(6) % 200) as f32 - 100.0) * 1e-4;
+            f.rt = (j(7) % 9000) as f32 / 100.0;
+            f.aligned_rt = f.rt / 90.0;
+            f.hyperscore = (j(8) % 9000) as f64 / 100.0 - 5.0;
+            f.delta_next = (j(9) % 100) as f64 / 10.0;
+            f.matched_peaks = (j(10) % 40) as u32;
+            f.poisson = -((j(11) % 300) as f64) / 10.0;
+            f.posterior_error = -((j(12) % 800) as f32) / 100.0;
+            f.spectrum_q = [0.5f32, 0.0001, 1.0, 0.0, f32::NAN][(j(13) % 5) as usize];
+            f.peptide_q = STALE[(j(14) % 8) as usize];
+            f.protein_q = STALE[(j(15) % 8) as usize];
+            f.ms2_intensity = (j(16) % 100_000) as f32;
+            out.push(f);
+        }
+        start = end;
+        scan += 1;
+    }
+    out
 }
 
 // ------------------------------------------------------------------------------------------ exec
@@ -387,7 +431,17 @@ fn run_prec(v: &[PeakSpec], order: &[usize]) -> (usize, Vec<f32>, Vec<usize>) {
         let p = &v[i];
         peaks.insert(
             p.key(),
-            (Peak { rt: i, spectral_angle: 0.25, score: p.score, q_value: 0.5 }, vec![1.0, 2.0]),
+            (
+                // everything but `score` is junk that must not matter (rt doubles as the entry id here);
+                // the stale q_value is out of range, so a peak that is not written back is a `range` violation
+                Peak {
+                    rt: i,
+                    spectral_angle: ((i * 37 + p.ix as usize) % 100) as f64 / 100.0,
+                    score: p.score,
+                    q_value: [2.0f32, 0.0, -1.0, f32::NAN][(i + p.charge as usize) % 4],
+                },
+                vec![i as f64; (i % 4) + (p.decoy as usize)],
+            ),
         );
     }
     let passing = picked_precursor(&mut peaks);
@@ -423,7 +477,7 @@ fn exec_inner(op: &str, t: &mut Toks) -> Option<String> {
             let spec = get_db(t)?;
             let fs = get_feats(t, spec.peps.len())?;
             let db = build_db(&spec);
-            let mut feats = features(&fs);
+            let mut feats = features(&fs, &spec);
             if op.starts_with("pick") {
                 if !t.done() {
                     return None;
@@ -438,7 +492,7 @@ fn exec_inner(op: &str, t: &mut Toks) -> Option<String> {
                 }
                 let (pa, qa) = run_level(level, &db, &mut feats);
                 let permuted: Vec<(usize, f32)> = perm.iter().map(|&i| fs[i]).collect();
-                let mut feats_b = features(&permuted);
+                let mut feats_b = features(&permuted, &spec);
                 let (pb, qb_perm) = run_level(level, &db, &mut feats_b);
                 let mut qb = vec![0.0f32; fs.len()];
                 for (k, &i) in perm.iter().enumerate() {
@@ -606,7 +660,7 @@ fn exec_bigpick(t: &mut Toks) -> Option<String> {
     o.n(psms.len());
     for (k, ord) in orders.iter().enumerate() {
         let fs: Vec<(usize, f32)> = ord.iter().map(|&i| (psms[i].pep, big_score(psms[i].m))).collect();
-        let mut feats = features(&fs);
+        let mut feats = features(&fs, &spec);
         let threads = pools[(k + pm) % 3];
         let (pp, pq) = in_pool(threads, || {
             let a = picked_peptide(&db, &mut feats);
